@@ -140,8 +140,13 @@ Qed.
 
 Lemma v4_final_spec : forall S F u0 ups t0 ts,
   v4_final S F (u0 :: ups) (t0 :: ts) =
-  Some (qmax (u_time S F (List.last (u0 :: ups) u0)) (List.last (t0 :: ts) t0) + 1).
+  Some (qmax (u_time S F (List.last (u0 :: ups) u0)) (List.last (t0 :: ts) t0) + v4_pad).
 Proof. reflexivity. Qed.
+
+Lemma v4_constants : v4_eps == 1 # 1000000 /\ v4_pad == 1 /\
+  v4_delay_steps = ["times=sync+count/scale"; "final=max(last update,last dump)+pad"; "next_times=times[1:]-eps,final";
+                    "next=value+rate*(next_times-times)"; "interleave"; "store delay and phase getters"]%string.
+Proof. repeat split. Qed.
 
 Lemma qmax_ge : forall a b, a <= qmax a b /\ b <= qmax a b.
 Proof.
